@@ -182,7 +182,7 @@ class FG:
 
 def run(tier, seed):
     ctx = core.Ctx(PID, tier, seed, LEVEL)
-    per_cell = 30 if tier == "quick" else 500
+    per_cell = 30 if tier == "quick" else core.share(500)
     legs = ["dev"] if tier == "quick" else ["dev", "release"]
     ctx.rule = ("fault enumeration: %d fault kinds x %d calling contexts, %d programs per cell; the faulting operation sits at a random position and depth of an otherwise "
                 "valid program, between effects (set!, vector-set!, define, ticks) and is followed by forms reading them back and by ordinary forms. "
@@ -237,14 +237,24 @@ def run(tier, seed):
         ctx.legs.append(leg)
     ctx.observed["cell_hits"] = cell_hits
     ctx.observed["cells_total"] = len(FAULTS) * len(CONTEXTS)
-    low = [c for c in ("%s/%s" % (f, c) for f in FAULTS for c in CONTEXTS) if cell_hits.get(c, 0) < min(20, per_cell // 2) * len(legs)]
+    ctx.observed["cell_minimum"] = min(20, per_cell // 2) * len(legs) if core.PART_N == 1 else 20 * len(legs)
     for f, c, forms, fi in progs[:: max(1, len(progs) // 4)][:4]:
         ctx.sample({"cell": "%s/%s" % (f, c), "forms": [show(x) for x in forms[len(PRELUDE):]]})
     rc = ctx.finish(min_evals=200, min_nontrivial=40)
-    if rc == core.EXIT_HELD and low:
+    if core.PART_N == 1 and rc == core.EXIT_HELD:
+        return post(ctx) or rc
+    return rc
+
+
+def post(ctx):
+    """every fault x context cell must have been observed often enough, otherwise the run decides nothing"""
+    hits = ctx.observed.get("cell_hits", {})
+    need = ctx.observed.get("cell_minimum", 20)
+    low = [c for c in ("%s/%s" % (f, c) for f in FAULTS for c in CONTEXTS) if hits.get(c, 0) < need]
+    if low:
         print("INCONCLUSIVE property=C08 fault x context cells with too few agreeing observations: %s" % low)
         return core.EXIT_INCONCLUSIVE
-    return rc
+    return None
 
 
 def replay(path):
